@@ -27,7 +27,7 @@ ASSUMPTIONS = [
 COMPONENTS = {"real": ["sexp_write / sexp_read (sexp.c)", "SRFI 38 reader and writer (Scheme, char-by-char over ports)", "number->string / string->number paths used by both",
                        "port buffering (refill, push-back, flush) for three port kinds", "scheduler blocking on descriptors", "collector"],
               "stub": ["byte delivery/acceptance schedule", "stored text corruption", "collection schedule", "clock"]}
-BUDGET = {"quick": {"seconds": 55, "cases": 8000}, "thorough": {"seconds": 1200, "cases": 600000}}
+BUDGET = {"quick": {"seconds": 55, "cases": 8000, "min_cases": 500}, "thorough": {"seconds": 1200, "cases": 600000}}
 IMPORTS = ["(srfi 18)", "(chibi io)", "(srfi 38)", "(scheme write)", "(scheme read)", "(scheme complex)",
            "(rename (only (chibi) write read) (write native-write) (read native-read))"]
 CONFIGS = {
